@@ -327,6 +327,29 @@ where
 def docEquiv (keyEq : Str → Str → Bool) (nullAsEmpty : Bool) (a b : J) : Bool :=
   docEquivF keyEq nullAsEmpty (jSize a + jSize b + 2) a b
 
+/-- core/conf hands the unmarshaller a document in which every key that names a field of the struct at that place
+(up to case) is written in lower case — otherwise the lower-casing unmarshaller cannot find it -/
+def confKeysLowered : Nat → Ty → J → Bool
+  | 0, _, _ => true
+  | fuel + 1, t, j =>
+    match t, j with
+    | .ptr t', _ => confKeysLowered fuel t' j
+    | .struct fs, .obj m =>
+      m.all fun kv =>
+        let rec go : Fields → Bool
+          | .nil => true
+          | .cons name tag ft rest =>
+            (match tag with
+             | some tv =>
+               match parseTag name tv with
+               | .ok (key, _) => if lower key = lower kv.1 then kv.1 = lower kv.1 && confKeysLowered fuel ft kv.2 else true
+               | .error _ => true
+             | none => true) && go rest
+        go fs
+    | .slice t', .arr l => l.all fun x => confKeysLowered fuel t' x
+    | .map t', .obj m => m.all fun kv => confKeysLowered fuel t' kv.2
+    | _, _ => true
+
 /-- one unmarshal of the document `doc` under `op.cfg` into `op.ty`, compared with the observation `obs` -/
 def runU (r : Report) (sec : Nat) (l : Line) (op : Op) (mode : String) (obs : List String) : Report := Id.run do
     let mut r := { r with ops := r.ops + 1 }
@@ -415,6 +438,9 @@ def runFrontEnd (r : Report) (sec : Nat) (l : Line) (mode : String) (conf yaml :
             r.addCover "frontend-yaml-null-became-empty-string(known-defect)"
           else r.violation sec l.idx s!"front-end-changed-the-supplied-values op=[{joinSp l.op}] impl=[{joinSp l.obs}]"
         let r := if conf && !(docEquiv (· == ·) true op.input doc) then r.addCover "conf-keys-lowered" else r
+        let r := if conf && !(confKeysLowered (jSize doc + 2) op.ty doc) then
+            r.violation sec l.idx s!"conf-field-key-not-lowered op=[{joinSp l.op}] impl=[{joinSp l.obs}]"
+          else r
         runU r sec l { op with input := doc } mode obs
       | _ => r.mismatch sec l.idx "unparsable-observation" (joinSp l.obs)
     | _ => r.mismatch sec l.idx "unparsable-observation" (joinSp l.obs)
@@ -666,7 +692,30 @@ def runVLine (r : Report) (sec : Nat) (l : Line) : Report :=
             if found ≠ shouldFind then
               r := r.violation sec l.idx s!"valuer-lookup-wrong(found={found},bound={shouldFind}) key={String.ofList key} op=[{joinSp l.op}] impl=[{joinSp l.obs}]"
             else match nearest with
-              | some (.obj _) => pure ()
+              | some (.obj vm) =>
+                -- an object: every binding the nearest node supplies under this key is handed over unchanged; with
+                -- `inherit` the keys it does not bind come from the nearest ancestor object that binds them
+                if found then
+                  match parseJT (ans.length + 1) (ans.drop 1) with
+                  | some (.obj res, []) =>
+                    let own := (canonObj vm).all fun kv =>
+                      match getKey kv.1 res with
+                      | some x => jTokens (jSize x + 1) x == jTokens (jSize kv.2 + 1) kv.2
+                      | none => false
+                    let inherited : Bool := !rec_ || ((ch.drop 1).filterMap (getKey key ·)).all fun pj =>
+                      match pj with
+                      | .obj pm => (canonObj pm).all fun kv => hasKey kv.1 res
+                      | _ => true
+                    let nothingElse := (canonObj res).all fun kv =>
+                      hasKey kv.1 vm || (rec_ && ((ch.drop 1).filterMap (getKey key ·)).any fun pj =>
+                        match pj with | .obj pm => hasKey kv.1 pm | _ => false)
+                    if !own then
+                      r := r.violation sec l.idx s!"valuer-lookup-wrong(a supplied binding of the object was replaced or lost) key={String.ofList key} op=[{joinSp l.op}] impl=[{joinSp l.obs}]"
+                    else if !nothingElse then
+                      r := r.violation sec l.idx s!"valuer-lookup-wrong(a binding that nobody supplied) key={String.ofList key} op=[{joinSp l.op}] impl=[{joinSp l.obs}]"
+                    else if !inherited then r := r.addCover "valuer-inheritance-stops-at-a-non-object"
+                  | _ =>
+                    r := r.violation sec l.idx s!"valuer-lookup-wrong(an object was supplied, something else handed over) key={String.ofList key} op=[{joinSp l.op}] impl=[{joinSp l.obs}]"
               | some j =>
                 if found && joinSp ans ≠ "found " ++ jTokens (jSize j + 1) j then
                   r := r.violation sec l.idx s!"valuer-lookup-wrong(value of the nearest binding changed) key={String.ofList key} op=[{joinSp l.op}] impl=[{joinSp l.obs}]"
